@@ -18,6 +18,13 @@ def main():
         return 2
     verif_c17.main("quick", os.path.join(TARGET, "cache", "setup_C17.json"))
     try:
+        # optimisation-profile builds of the configuration probe used by the quick tier of C16
+        import verif_c16cfg
+        for v in [(2, False, False), (3, True, False)]:
+            verif_c16cfg.one(99, list(verif_c17.SETS), v)
+    except Exception as ex:
+        sys.stderr.write("c16 profile builds: %s\n" % ex)
+    try:
         import verif_c12os
         verif_c12os.build()
     except Exception as ex:
